@@ -933,6 +933,45 @@ def _random_copies(ctx):
         ctx.check("copies: a list passed to a library call is not modified", arg == given, {"call": "chords.from_shorthand(%r, list)" % (first,), "list": given},
                   given, arg, mechanism="arg:from_shorthand-second")
         ctx.case(("from_shorthand-second", k))
+    # one name (or list of names) added through a composition to several selected tracks: each track gets content of its own
+    from mingus.containers import Composition
+    for i in range(40):
+        comp = Composition()
+        trs = [Track() for _ in range(rng.randint(2, 4))]
+        for t_ in trs:
+            comp.add_track(t_)
+        comp.selected_tracks = sorted(rng.sample(range(len(trs)), rng.randint(2, len(trs))))
+        item = rng.choice(["C", "F#-3", "Bb", "A-2", "E-5"])     # (names: an object handed over as such is the caller's own)
+        via = rng.choice(["add_note", "+"])
+        try:
+            comp.add_note(item) if via == "add_note" else comp + item
+        except Exception as e:
+            ctx.check("siblings: operating on one object leaves a separately created object unchanged", False,
+                      {"composition": "%s(%r) with tracks %s selected" % (via, item, comp.selected_tracks)}, "accepted", repr(e), mechanism="composition-fan-out:raise")
+            continue
+        sel = [trs[k] for k in comp.selected_tracks]
+
+        def tstate(t_):
+            return [[(e[0], e[1], None if e[2] is None else [(n.name, n.octave, n.velocity) for n in e[2].notes]) for e in b] for b in t_]
+        victim = rng.choice(sel)
+        others = [t_ for t_ in sel if t_ is not victim]
+        before = [tstate(t_) for t_ in others]
+        op = rng.choice(["transpose", "augment", "add to the entry", "velocity", "empty the entry"])
+        if op == "transpose":
+            victim.transpose("3")
+        elif op == "augment":
+            victim.augment()
+        elif op == "add to the entry":
+            victim[0][0][2].add_note("D", 7)
+        elif op == "velocity":
+            [n.set_velocity(1) for n in victim[0][0][2].notes]
+        else:
+            victim[0][0][2].empty()
+        after = [tstate(t_) for t_ in others]
+        ctx.check("siblings: operating on one object leaves a separately created object unchanged", after == before,
+                  {"composition": "%s(%r) with tracks %s selected" % (via, item, comp.selected_tracks), "then": op + " on one of the tracks"},
+                  before[0], after[0], mechanism="composition-fan-out:" + op)
+        ctx.case(("composition-fan-out", repr(item), via, op))
     # meters given as lists
     for i in range(30):
         m = [rng.randint(1, 12), rng.choice([1, 2, 4, 8, 16, 32])]
